@@ -14,6 +14,7 @@ import (
 	"sync/atomic"
 	"testing"
 	"time"
+	"verif/harness/internal/refmpt"
 
 	"github.com/0chain/common/core/util"
 	"github.com/0chain/common/core/util/wmpt"
@@ -798,6 +799,29 @@ func TestDeepChainExport(t *testing.T) {
 			ev.Case(fmt.Sprintf("deep-chain/%d", depth), true, "deep-chain-export", fmt.Sprintf("accepted:%v", err == nil))
 		case <-time.After(25 * time.Second):
 			t.Fatalf("Deserialize of a %d-element chain export (%d bytes) has not returned after %v (it takes a fraction of a second on this code)", depth+1, len(in), time.Since(st).Round(time.Second))
+		}
+	})
+}
+
+// State-trie node encodings whose value part is larger than any value the trie would accept on insert (the limit, the
+// limit plus one, 12 MiB): the decoder has no such limit, so it may accept them - and what it accepts must re-encode,
+// hash and clone without panicking.
+func TestOversizeStateTrieNodes(t *testing.T) {
+	ev.Guard(t, "TestOversizeStateTrieNodes", func() {
+		seed := ev.SeedFor("TestOversizeStateTrieNodes")
+		for _, size := range []int{util.MPTMaxAllowableNodeSize, util.MPTMaxAllowableNodeSize + 1, 12 << 20} {
+			val := bytes.Repeat([]byte{0x5a, byte(seed), 0x3a}, size/3+1)[:size]
+			child := bytes.Repeat([]byte{0xab}, 32)
+			branch := &refmpt.Node{Type: refmpt.TBranch, Origin: int64(seed % 5), Version: int64(seed % 5), Value: val}
+			branch.Children[3] = child
+			for kind, n := range map[string]*refmpt.Node{
+				"leaf":   {Type: refmpt.TLeaf, Origin: 1, Version: 1, Prefix: []byte("ab"), Path: []byte("cd"), Value: val},
+				"branch": branch,
+			} {
+				enc := refmpt.Encode(n)
+				acc, _ := tryCreateNode(t, enc)
+				ev.Case(fmt.Sprintf("oversize/%s/%d/%v", kind, size, acc), true, "state-trie-node-with-a-value-beyond-the-insert-limit")
+			}
 		}
 	})
 }
